@@ -133,7 +133,7 @@ pub open spec fn by_formatter<T, U: Fn(&Context, &T, TableType, Shape) -> (T, Ve
     exists|s: Shape, v: Vec<Token>| #[trigger] formatter.ensures((&c, &f, tt, s), (out, v))
 }
 """, module="formatters::table"),
-        Fn(CTX, "check_toggle_formatting", impl_of="Context", mode="stub", sig_edits=[VN], proved_in="ctx", contract="ensures r == toggle(*self, node.key()),"),
+        Fn(CTX, "check_toggle_formatting", impl_of="Context", mode="stub", sig_edits=[VN], contract="ensures r == toggle(*self, node.key()),"),
         Fn(TB, "create_table_braces", mode="stub"),
         Fn(GEN, "format_symbol", mode="stub"),
         Fn(TB, "format_multiline_table", sig_edits=[Hole("T: std::fmt::Display + Node,", "T: VNode,", kind="proxy", why="proxy trait for the sealed Node; the Display bound is not used by the verified text")], contract="""
